@@ -101,6 +101,8 @@ def obligations(tier, seed):
     obs += profiles.with_history([ob for ob in _sim_obligations(tier, seed) if ob["name"].startswith("abs/") and "k=FS" in ob["name"] and "flag=0" in ob["name"] and "pa0=1" in ob["name"]], "changed-absence", 2)
     resumed = [ob for ob in obs if ob["name"].startswith("abs/") and "/pa0=" not in ob["name"] and ("k=FS" in ob["name"] or thorough)]
     obs += profiles.with_history([ob for ob in _sim_obligations(tier, seed) if ob["name"].startswith("abs/") and "k=FS" in ob["name"] and "pa0=1" in ob["name"]], "resume", 4)
+    # the personal absence lists are put in place only after the first part of the run (they were empty before)
+    obs += profiles.with_history([ob for ob in _sim_obligations(tier, seed) if ob["name"].startswith("abs/") and ("k=FS" in ob["name"] or thorough) and "pa0=1" in ob["name"]], "edited-resume", 3)
     for ob in list(obs):
         if ob["name"].startswith("abs/") and "auto1=1" in ob["name"] and ("k=FS" in ob["name"] or thorough):
             obs.append(dict(ob, harness="sim_after_other_flag", name="otherflag/" + ob["name"]))
